@@ -336,8 +336,56 @@ def checks(program, body):
         if not rej or len(rej) == len(succ[bi]):
             continue
         deps = dp.of_operand(t['d'], (bi, 10 ** 6))
-        out.append({'bi': bi, 'deps': deps, 'reject': rej, 'cont': [s for s in succ[bi] if s not in rej]})
+        out.append({'bi': bi, 'deps': deps, 'reject': rej, 'cont': [s for s in succ[bi] if s not in rej],
+                    'order': _is_order_test(program, body, t['d'])})
     return out, dp
+
+
+ORDER_OPS = ('Lt', 'Le', 'Gt', 'Ge')
+
+
+def _is_order_test(program, body, op, depth=0, _seen=None):
+    """the tested value comes from an order comparison (<, <=, >, >=, or a checked_* / overflowing_* operation): such a test
+    bounds its operands, an equality or mask test does not"""
+    if op.get('k') not in ('copy', 'move') or depth > 10:
+        return False
+    if _seen is None:
+        _seen = set()
+    l = op['pl']['l']
+    if l in _seen:
+        return False
+    _seen.add(l)
+    for d in program.defs(body).get(l, []):
+        if d[0] == 'call':
+            fn = body.blocks[d[1]]['term'].get('fn') or ''
+            if '::checked_' in fn or '::overflowing_' in fn or fn.endswith(('::lt', '::le', '::gt', '::ge', '::cmp', '::partial_cmp')):
+                return True
+            t = body.blocks[d[1]]['term']
+            if any(_is_order_test(program, body, a, depth + 1, _seen) for a in t['args']):
+                return True
+            # a closure handed to a combinator (`.map(|end| end > limit)`) that compares
+            for a in t['args']:
+                if a.get('k') in ('copy', 'move'):
+                    ty = program.f.types[body.locals[a['pl']['l']]]
+                    if ty.get('k') == 'closure':
+                        cb = program.f.body(ty.get('p'))
+                        if cb is not None and any(s_.get('k') == 'assign' and s_['rv']['k'] == 'bin' and s_['rv'].get('op') in ORDER_OPS
+                                                  for bl in cb.blocks for s_ in bl['st']):
+                            return True
+        else:
+            rv = body.blocks[d[1]]['st'][d[2]]['rv']
+            if rv['k'] == 'bin' and rv.get('op') in ORDER_OPS:
+                return True
+            if rv['k'] in ('use', 'cast', 'un', 'unary', 'not', 'bin'):
+                if any(_is_order_test(program, body, o, depth + 1, _seen) for o in rv.get('ops', [])):
+                    return True
+            if rv['k'] in ('ref', 'rawptr') and rv.get('pl'):
+                if _is_order_test(program, body, {'k': 'copy', 'pl': {'l': rv['pl']['l'], 'p': []}}, depth + 1, _seen):
+                    return True
+            if rv['k'] == 'discr' and rv.get('pl'):
+                if _is_order_test(program, body, {'k': 'copy', 'pl': {'l': rv['pl']['l'], 'p': []}}, depth + 1, _seen):
+                    return True
+    return False
 
 
 def dominated_by_cont(body, chk, blk):
